@@ -78,18 +78,27 @@ class MultiObjectiveExperimenter(experimenter.Experimenter):
   def evaluate(self, suggestions: Sequence[pyvizier.Trial]):
     suggestions_copy = copy.deepcopy(suggestions)
     measurements = [pyvizier.Measurement() for _ in suggestions]
+    infeasibility_reasons = [None for _ in suggestions]
     for name, exptr in self._exptrs.items():
       exptr.evaluate(suggestions_copy)
       exptr_metric_name = self._exptr_to_metric[name]
       for idx, copied in enumerate(suggestions_copy):
+        if copied.infeasible and infeasibility_reasons[idx] is None:
+          infeasibility_reasons[idx] = copied.infeasibility_reason
         measurement = measurements[idx]
         assert copied.final_measurement is not None
         measurement.metrics[name] = copied.final_measurement.metrics[
             exptr_metric_name
         ]
 
-    for suggestion, measurement in zip(suggestions, measurements):
-      suggestion.complete(measurement)
+    for suggestion, measurement, reason in zip(
+        suggestions, measurements, infeasibility_reasons
+    ):
+      if reason is not None:
+        # An experimenter found the point infeasible: so is the trial.
+        suggestion.complete(measurement, infeasibility_reason=reason)
+      else:
+        suggestion.complete(measurement)
 
     return suggestions
 
